@@ -11,11 +11,20 @@ import (
 var smallAlphabet = []string{"SELECT", "1", "a", "(", ")", ",", "FROM", "AS", "INTERSECT", "EXCEPT", "UNION", "ALL", "*", "REPLACE", "-", "NOT", ".", "IN",
 	"[", "]", "GROUP", "BY", "GROUPING", "SETS", "WITH", "CASE", "WHEN", "END", "CAST", "::", "'s'", ";", "=", "AND", "BETWEEN", "INTERVAL", "TRIM", "ORDER", "LIMIT", "->",
 	// number tokens of every lexical form (a NUMBER that starts with a dot directly after a name is a tuple access)
-	".1e5", ".5", ".99999999999999999999", "1e5", "0x1F", "1.", "1e+", "{p:UInt8}"}
+	".1e5", ".5", ".99999999999999999999", "1e5", "0x1F", "1.", "1e+", "{p:UInt8}",
+	// here-documents, with ASCII and multi-byte tags, closed and not
+	"$é$$é$", "$дата$x$дата$", "$t$ x $t$", "$$x$$", "$a$"}
 
 var stmtPrefixes = []string{"", "SELECT", "SELECT 1", "SELECT a FROM t", "SELECT * ", "SELECT 1 INTERSECT SELECT 2", "CREATE TABLE t", "ALTER TABLE t", "INSERT INTO t", "WITH",
 	"SELECT f(", "SELECT substring(", "CREATE DICTIONARY d (k UInt64) PRIMARY KEY k", "SELECT 1 GROUP BY", "EXPLAIN", "SHOW", "SYSTEM", "GRANT", "RENAME", "EXCHANGE",
-	"SELECT position(", "SELECT CASE", "SELECT CAST(", "SELECT [", "CREATE VIEW v AS", "SET", "DROP", "SELECT x IN (", "SELECT * FROM t JOIN", "SELECT a FROM t ORDER BY"}
+	"SELECT position(", "SELECT CASE", "SELECT CAST(", "SELECT [", "CREATE VIEW v AS", "SET", "DROP", "SELECT x IN (", "SELECT * FROM t JOIN", "SELECT a FROM t ORDER BY",
+	// rare statements and clause positions (each has its own loop / continuation code)
+	"CREATE TABLE t (a Int8) ENGINE = MergeTree ORDER BY (a) *", "CREATE TABLE t (a Int8) ENGINE = MergeTree ORDER BY (a + b) * b", "CREATE TABLE t (a Int8) ENGINE = MergeTree PARTITION BY", "CREATE TABLE t (a Int8",
+	"ATTACH TABLE t", "ATTACH TABLE t UUID 'u'", "ATTACH TABLE t (a Int8) ENGINE = M ORDER BY n", "ALTER TABLE t MODIFY ORDER BY (a)", "ALTER TABLE t UPDATE a = 1", "ALTER TABLE t ADD INDEX i", "SELECT 1 FROM t SAMPLE",
+	"KILL QUERY WHERE", "KILL MUTATION", "SYSTEM RELOAD", "CREATE USER u", "GRANT SELECT ON", "REVOKE", "BACKUP TABLE t TO", "OPTIMIZE TABLE t", "DELETE FROM t WHERE", "UPDATE t SET", "CREATE FUNCTION f AS", "CREATE INDEX i ON t",
+	"CREATE DICTIONARY d (k UInt8) PRIMARY KEY k SOURCE(", "CREATE DICTIONARY d (k UInt8) PRIMARY KEY k LAYOUT(", "SHOW CREATE", "DESCRIBE", "EXISTS", "CHECK TABLE t", "WATCH v", "USE", "SET a =", "TRUNCATE", "DETACH", "UNDROP TABLE t",
+	"SELECT 1 WINDOW w AS (", "SELECT sum(x) OVER (", "SELECT 1 FROM t ARRAY JOIN", "SELECT 1 LIMIT 1 BY", "SELECT 1 ORDER BY a WITH FILL", "SELECT 1 SETTINGS", "SELECT 1 FORMAT", "INSERT INTO t VALUES", "INSERT INTO FUNCTION f(",
+	"CREATE MATERIALIZED VIEW v TO t AS", "CREATE ROW POLICY p ON t", "CREATE QUOTA q", "CREATE ROLE r", "ALTER USER u", "MOVE", "PARALLEL WITH", "SELECT 1 PARALLEL WITH"}
 
 type fuzzCase struct {
 	Idx   int
@@ -167,6 +176,24 @@ func fuzzSpace(w *W, f func(c fuzzCase)) {
 	nests := []nest{{"(", "1", ")"}, {"f(", "x", ")"}, {"NOT ", "a", ""}, {"- ", "a", ""}, {"-", "1", ""}, {"(SELECT ", "1", ")"}, {"[", "1", "]"}, {"tuple(", "1", ")"},
 		{"CAST(", "1", " AS UInt8)"}, {"a IN (", "1", ")"}, {"if(1, 2, ", "3", ")"}, {"x -> ", "x", ""}, {"(SELECT * FROM (", "SELECT 1", "))"}, {"CASE WHEN 1 THEN ", "2", " END"},
 		{"arrayMap(x -> ", "x", ", [1])"}, {"a AND (", "b", ")"}, {"1 + (", "2", ")"}, {"EXISTS (SELECT ", "1", ")"}}
+	// … and types: nesting of every parametrised constructor around every kind of leaf, in the three type positions, at
+	// depths around ClickHouse's limit (≤ 1000 levels is inside C03's bound; beyond it only C01/C02 apply)
+	for _, tn := range []nest{{"Array(", "", ")"}, {"Nullable(", "", ")"}, {"Tuple(a ", "", ")"}, {"Map(String, ", "", ")"}, {"Tuple(Int8, ", "", ")"}, {"LowCardinality(", "", ")"}} {
+		for _, leaf := range []string{"JSON(a UInt8)", "JSON(max_dynamic_paths = 1)", "Object('json')", "Enum8('a' = 1)", "DateTime64(3, 'UTC')", "Nested(x Int8)", "Int8", "AggregateFunction(sum, Int8)", "Dynamic(max_types = 1)", "Variant(Int8, String)"} {
+			for _, depth := range []int{100, 998, 999, 1000, 1001, 1500} {
+				if !w.Thorough() && depth != 999 && depth != 1000 && (len(leaf)+depth)%4 != 0 {
+					continue
+				}
+				ty := strings.Repeat(tn.open, depth) + leaf + strings.Repeat(tn.close, depth)
+				for pi, pos := range [][2]string{{"CREATE TABLE t (c ", ") ENGINE = Memory"}, {"SELECT CAST(x AS ", ")"}, {"SELECT x::", ""}} {
+					if !w.Thorough() && (pi+depth+len(tn.open))%3 != 0 {
+						continue
+					}
+					run(pos[0]+ty+pos[1], fmt.Sprintf("deep-type:%q*%d", tn.open, depth), depth > 996)
+				}
+			}
+		}
+	}
 	for _, nn := range nests {
 		for _, depth := range []int{60, 240, 520, 990} {
 			if !w.Thorough() && depth == 240 {
